@@ -12,7 +12,7 @@ func (ra *RequestAdaptor) reload()
   modifies ra.pa
 
 func (ra *RequestAdaptor) Init()
-  flag frame=unchecked
+  modifies allof("filters/requestadaptor.RequestAdaptor.pa")
   requires ra != nil && ra.spec != nil
 
 // ---- C03: a request body the adaptor compresses or decompresses before the proxy forwards it ----
@@ -26,7 +26,6 @@ pred reqUntouched(r *httpprot.Request, s0 int, p0 int) := ref(r.stream) == s0 &&
 
 func (ra *RequestAdaptor) processCompress(req *httpprot.Request) (res string)
   flag allocates
-  flag frame=unchecked
   requires req != nil && req.Request != nil && req.Request.Header != nil
   modifies req.payload, req.stream, entries(req.Request.Header), rdRem, gzFed, gzClosed, limUnder
   ensures an-encoded-body-is-left-alone: old(reqLabel(req)) != "" ==> res == "" && req.stream == old(req.stream) && req.payload == old(req.payload) && (forall k string :: ((k in req.Request.Header) <==> old(k in req.Request.Header)) && req.Request.Header[k] == old(req.Request.Header[k]))
@@ -36,7 +35,6 @@ func (ra *RequestAdaptor) processCompress(req *httpprot.Request) (res string)
 
 func (ra *RequestAdaptor) processDecompress(req *httpprot.Request) (res string)
   flag allocates
-  flag frame=unchecked
   requires ra != nil && ra.spec != nil && req != nil && req.Request != nil && req.Request.Header != nil
   modifies req.payload, req.stream, entries(req.Request.Header), rdRem, limUnder
   ensures only-gzip-labelled-bodies-are-decoded: (ra.spec.Decompress != "gzip" || old(reqLabel(req)) != "gzip") ==> res == "" && req.stream == old(req.stream) && req.payload == old(req.payload) && (forall k string :: ((k in req.Request.Header) <==> old(k in req.Request.Header)) && req.Request.Header[k] == old(req.Request.Header[k]))
